@@ -8,18 +8,24 @@ path that no predicate explains is a new violation.  Nothing here is written at 
 from __future__ import annotations
 
 
-def _explained(job, failure, flag) -> bool:
+def _rerun(job, failure, **attrs) -> bool:
+    """the failure disappears when the harness instance is given `attrs`"""
     from vf.engine import run_concrete
     from vf.run import harness_module
 
     H = harness_module(job["harness"])
     inst = H.make(job)
-    inst.relax = (flag,)
+    for k, v in attrs.items():
+        setattr(inst, k, v)
     try:
         fail, _ = run_concrete(inst.body, failure["inputs"])
     except Exception:
         return False
     return fail is None
+
+
+def _explained(job, failure, flag) -> bool:
+    return _rerun(job, failure, relax=(flag,))
 
 
 def literal_bool_int_conflation(job, failure) -> bool:
@@ -60,3 +66,9 @@ def unique_items_unhashable(job, failure) -> bool:
         return False
     finally:
         M.UniqueItemsConstraint.validate = orig
+
+
+def flattened_schema_closed_members(job, failure) -> bool:
+    """C06: the disagreement disappears when the members of an allOf closed by
+    unevaluatedProperties do not carry their own additionalProperties"""
+    return _rerun(job, failure, repair=True)
